@@ -28,7 +28,7 @@ var c08Rec = vt.NewRecorder("C08", "TestC08",
 	"well-formed feeds with >=2 trips of >=3 stop times and >=2 shapes of >=3 points (sequences distinct, non-contiguous, negative, multi-digit so string order != numeric order, > 2^31) "+
 		"x a generated permutation of the stop_times.txt and shapes.txt rows (identity, reversed, round-robin interleaved, trip revisited after another trip, fully random). "+
 		"Oracle: (i) direct - stop times strictly ascending by stop_sequence per trip, shapes ascending by id, shape points in sequence order and every file-ordered collection in file order (reference model); "+
-		"(ii) metamorphic - the permuted archive gives the normal form of the sorted one. Non-trivial = >=2 trips interleaved and some trip's rows out of order")
+		"(ii) metamorphic - the permuted archive gives the normal form of the sorted one; (iii) the result of the first call, still held, is unchanged and still ordered after the later call. Non-trivial = >=2 trips interleaved and some trip's rows out of order")
 
 func init() { registerReplay("C08", "TestC08", checkC08) }
 
